@@ -35,6 +35,7 @@ def parseContract (s : String) : Option Contract :=
 
 inductive LOp
   | add (name refl : String) (c : Contract)
+  | swap (name refl : String) (c : Contract)     -- Remove(name) ‖ Add(name) in front of a fresh instance
   | fail (name : String)
   | opts (name : String)
   | remove (name : String)
@@ -44,6 +45,7 @@ inductive LOp
 def parseLOp (s : String) : Option LOp :=
   match s.splitOn "," with
   | ["A", n, r, c] => (parseContract c).map (.add n r)
+  | ["X", n, r, c] => (parseContract c).map (.swap n r)
   | ["F", n] => some (.fail n)
   | ["O", n] => some (.opts n)
   | ["R", n] => some (.remove n)
@@ -77,11 +79,11 @@ def parseLine : List String → Line → Option Line
 /-! ### the key universe of a line (for tabulating the function-valued state) -/
 
 def contractsOf (ops : List LOp) : List Contract :=
-  ops.filterMap fun | .add _ _ c => some c | .upd _ c => some c | _ => none
+  ops.filterMap fun | .add _ _ c => some c | .swap _ _ c => some c | .upd _ c => some c | _ => none
 
 def namesOf (ops : List LOp) : List Name :=
   (ops.filterMap fun
-    | .add n _ _ => some n | .fail n => some n | .opts n => some n | .remove n => some n | .upd n _ => some n
+    | .add n _ _ => some n | .swap n _ _ => some n | .fail n => some n | .opts n => some n | .remove n => some n | .upd n _ => some n
     | .probe => none).eraseDups.map ascii
 
 def keysOf (l : Line) : Hist.Keys :=
@@ -123,6 +125,20 @@ def applyOp (cfg : Cfg) (k : Hist.Keys) (removedBefore : List String) (d : DSt) 
       let d' := if removedBefore.contains name then d'.tag "b=readd" else d'
       let d' := if hasRefl then d'.tag s!"b=refl-{refl}" else d'.tag "b=no-reflection"
       (d', "ok")
+  | .swap name refl c =>
+    -- both linearisations (Remove;Add and Add[dup];Remove;Add-again) end in the same settled state (`Stack_swap`):
+    -- the name present in front of the NEW instance; the result token tells which one was taken (see `swapResult`)
+    let n := ascii name
+    let wasPresent := d.st.present n
+    let st1 := if wasPresent then shallow k (step validStack d.st (.remove n)).1 else d.st
+    let hasRefl := refl != "none"
+    let desc := if hasRefl then some (c.toDesc n i) else none
+    let st' := shallow k (step validStack st1 (.add n desc)).1
+    let tid := s!"i{i}"
+    let inst : Inst := ⟨n, tid, hasRefl, if hasRefl then c else []⟩
+    let d' : DSt := { d with st := st', live := d.live.filter (fun (x : Inst) => x.name != n) ++ [inst],
+                             vers := d.vers ++ [(i, tid, c)] }
+    (d'.tag "b=swap", if wasPresent then "true" else "false")
   | .fail _ => (d.tag "b=failed-add", "err")
   | .opts _ => (d.tag "b=rejected-add", "err")
   | .remove name =>
@@ -130,7 +146,11 @@ def applyOp (cfg : Cfg) (k : Hist.Keys) (removedBefore : List String) (d : DSt) 
     if d.st.present n then
       let st' := shallow k (step validStack d.st (.remove n)).1
       let d' : DSt := { d with st := st', live := d.live.filter (fun (x : Inst) => x.name != n) }
-      (d'.tag "b=remove", "true")
+      -- calls in flight through all five entry points must have ended when Remove has returned (C16)
+      let inflight := match d.live.find? (fun (x : Inst) => x.name == n) with
+        | some inst => inst.refl
+        | none => false
+      (d'.tag "b=remove", if inflight then "true~px:E;gw:E;gs:E;ht:E;ws:E" else "true")
     else (d.tag "b=remove-absent", "false")
   | .upd name c =>
     let n := ascii name
@@ -152,12 +172,13 @@ structure PLabel where
   path : String
 
 def labels (l : Line) : List PLabel :=
-  l.g.flatMap (fun p => ["px", "gw", "gs"].map (fun ep => ⟨"G", ep, "", p⟩)) ++
-  l.h.map (fun (hm, p, _) => ⟨"H", "ht", hm, p⟩) ++ l.w.map (fun (p, _) => ⟨"W", "ws", "GET", p⟩)
+  l.g.flatMap (fun p => ["px", "gw", "gs"].map (fun ep => (⟨"G", ep, "", p⟩ : PLabel)) ++ [⟨"D", "dg", "", p⟩]) ++
+  l.h.flatMap (fun (hm, p, _) => [(⟨"H", "ht", hm, p⟩ : PLabel), ⟨"D", "dh", hm, p⟩]) ++
+  l.w.map (fun (p, _) => ⟨"W", "ws", "GET", p⟩)
 
 def expectAll (l : Line) (d : DSt) : List String :=
-  (l.g.zipIdx.flatMap fun (p, k) => let e := expectG l.cfg d.st d.vers k p; [e, e, e]) ++
-  (l.h.zipIdx.map fun ((hm, p, b), k) => expectH l.cfg d.st d.vers k hm p b) ++
+  (l.g.zipIdx.flatMap fun (p, k) => let e := expectG l.cfg d.st d.vers k p; [e, e, e, expectDG d.st d.vers p]) ++
+  (l.h.zipIdx.flatMap fun ((hm, p, b), k) => [expectH l.cfg d.st d.vers k hm p b, expectDH d.st d.vers hm p]) ++
   (l.w.zipIdx.map fun ((p, b), k) => expectW l.cfg d.st d.vers k p b)
 
 structure Verdict where
@@ -207,6 +228,7 @@ def judge (l : Line) (out : List String) : String := Id.run do
   let mut v : Verdict := {}
   let mut removed : List String := []
   let mut contested := false
+  let mut pending : Option String := none
   let mut step := 0
   for (tokn, op?) in out.zip (none :: l.ops.map some) do
     let (resI, recsI) := match tokn.splitOn "=" with
@@ -221,19 +243,37 @@ def judge (l : Line) (out : List String) : String := Id.run do
       match op with
       | .remove n => removed := n :: removed
       | _ => pure ()
-      if resI ≠ want then
-        if resI == "ok!" && want == "ok" then
-          let what := match op with
-            | .upd _ _ => "polled-contract-change-never-visible-on-both-routers"
-            | _ => "first-resolution-never-visible-on-both-routers"
-          v := v.add (.viol what) s!"step {step}:"
-        else v := v.add (.viol s!"add-remove-result:impl={resI},spec={want}") s!"step {step}:"
+      let isSwap := match op with | .swap _ _ _ => true | _ => false
+      let settleMiss := resI.endsWith "!"     -- the settle wait ran into its bound: judged AFTER the records of the step
+      let resC := if settleMiss then (resI.dropEnd 1).toString else resI
+      if settleMiss then
+        pending := some (match op with
+          | .upd _ _ => "polled-contract-change-never-visible-on-both-routers"
+          | _ => "first-resolution-never-visible-on-both-routers")
+      if isSwap then
+        -- Remove ‖ Add of one name: present (Add succeeded) or absent-and-addable (the repeated Add succeeds)
+        if !(resC == want ++ "/ok/-" || resC == want ++ "/err/ok") then
+          let parts := resC.splitOn "/"
+          if parts.getD 2 "" == "err" then
+            v := v.add (.viol s!"name-neither-present-nor-addable:remove={parts.getD 0 ""},add={parts.getD 1 ""},add-again=err") s!"step {step}:"
+          else v := v.add (.viol s!"add-remove-result:impl={resC},spec={want}/ok/-|{want}/err/ok") s!"step {step}:"
+      else if resC ≠ want then
+        if resC.startsWith "true~" && want.startsWith "true~" then
+          -- calls in flight at Remove
+          let bad := ((resC.drop 5).toString.splitOn ";").filter (fun e => !e.endsWith ":E")
+          if bad.any (·.endsWith ":O") then
+            v := v.add (.viol s!"in-flight-call-survives-remove:{";".intercalate bad}") s!"step {step}:"
+          else v := v.add (.viol s!"in-flight-call-could-not-be-established:{";".intercalate bad}") s!"step {step}:"
+        else v := v.add (.viol s!"add-remove-result:impl={resC},spec={want}") s!"step {step}:"
     -- the probes
     let model := expectAll l d
     let impl := splitNE recsI ","
     if impl.length ≠ model.length then
       return s!"BAD step {step}: {impl.length} records for {model.length} probes"
     v := judgeRecords lbls d step impl model v
+    match pending with
+    | some what => v := v.add (.viol what) s!"step {step}:"; pending := none
+    | none => pure ()
     -- bookkeeping for the tags
     if l.g.any (fun p => (d.live.filter (·.contract.lists (svcOfPath p))).length > 1) then contested := true
     d := { d with prev := model }
@@ -242,7 +282,7 @@ def judge (l : Line) (out : List String) : String := Id.run do
   d := d.tag (if l.cfg.opt then "b=opt-custom" else "b=opt-default")
   d := d.tag (if l.cfg.poll then "b=polling-1s" else "b=polling-off")
   let nt := d.tags.any (fun t => t == "b=readd" || t == "b=contested-service" || t == "b=failed-add" ||
-    t == "b=rejected-add" || t == "b=poll-update")
+    t == "b=rejected-add" || t == "b=poll-update" || t == "b=swap")
   match v.viol, v.diff with
   | some m, _ => return s!"VIOL {m}"
   | none, some m => return s!"DIFF {m}"
